@@ -21,6 +21,16 @@ pub const EARLY_MS: u64 = 3;
 const HARD_WAIT_MS: u64 = 10_000;
 
 static COUNTER: AtomicU64 = AtomicU64::new(0);
+thread_local! {
+    /// when set, engines started on this thread are pinned to ONE core (`taskset -c n`): the search
+    /// thread and the polling I/O thread then time-slice on a single CPU, a very different family of
+    /// interleavings from the free-running one
+    pub static PIN_ONE_CORE: std::cell::Cell<bool> = std::cell::Cell::new(false);
+}
+fn taskset_available() -> bool {
+    static A: std::sync::OnceLock<bool> = std::sync::OnceLock::new();
+    *A.get_or_init(|| Command::new("taskset").arg("-c").arg("0").arg("true").output().map(|o| o.status.success()).unwrap_or(false))
+}
 
 pub struct Engine {
     child: Child,
@@ -36,7 +46,16 @@ impl Engine {
         let bin = std::env::var("WALLEYE_BIN").map_err(|_| "HARNESS: WALLEYE_BIN not set (run through ./check)".to_string())?;
         let dir = format!("{}/run/e_{}_{}", std::env::var("VERIF_CACHE").unwrap_or_else(|_| "/verif/.cache".into()), std::process::id(), COUNTER.fetch_add(1, Ordering::Relaxed));
         std::fs::create_dir_all(&dir).map_err(|e| format!("HARNESS: cannot create {}: {}", dir, e))?;
-        let mut child = Command::new(&bin).current_dir(&dir).stdin(Stdio::piped()).stdout(Stdio::piped()).stderr(Stdio::piped()).spawn().map_err(|e| format!("HARNESS: cannot start {}: {}", bin, e))?;
+        let n = COUNTER.load(Ordering::Relaxed);
+        let ncpu = std::thread::available_parallelism().map(|x| x.get()).unwrap_or(1) as u64;
+        let mut cmd = if PIN_ONE_CORE.with(|p| p.get()) && taskset_available() {
+            let mut c = Command::new("taskset");
+            c.arg("-c").arg((n % ncpu).to_string()).arg(&bin);
+            c
+        } else {
+            Command::new(&bin)
+        };
+        let mut child = cmd.current_dir(&dir).stdin(Stdio::piped()).stdout(Stdio::piped()).stderr(Stdio::piped()).spawn().map_err(|e| format!("HARNESS: cannot start {}: {}", bin, e))?;
         let stdin = child.stdin.take();
         let out = child.stdout.take().unwrap();
         let err = child.stderr.take().unwrap();
@@ -617,16 +636,22 @@ pub fn run_c03(ctx: &mut Ctx) {
     ctx.max_shrink_iters = 16;
     let saved = ctx.workers;
     // two load levels to vary the interleavings of the search and I/O threads
-    for (name, workers, cases) in [("go_chains_16_at_a_time", 16usize, t.pick(1_000u32, 9_000u32)), ("go_chains_oversubscribed_48_at_a_time", 48usize, t.pick(800u32, 6_000u32))] {
+    for (name, workers, pin, cases) in [("go_chains_16_at_a_time", 16usize, false, t.pick(1_000u32, 9_000u32)), ("go_chains_oversubscribed_48_at_a_time", 48usize, false, t.pick(800u32, 6_000u32)), ("go_chains_each_engine_pinned_to_one_core", 16usize, true, t.pick(500u32, 6_000u32))] {
         ctx.workers = workers;
         run_prop(
             ctx,
             name,
             || go_session_strategy(120, 6),
             cases,
-            |s, st| {
+            move |s, st| {
                 st.sample(|| go_session_json(s));
-                c03_session(s, false, st)
+                PIN_ONE_CORE.with(|p| p.set(pin));
+                let r = c03_session(s, false, st);
+                PIN_ONE_CORE.with(|p| p.set(false));
+                if pin && taskset_available() {
+                    st.label("engine_pinned_to_one_core");
+                }
+                r
             },
             go_session_json,
         );
@@ -798,7 +823,15 @@ pub fn c08_case(c: &TimedCase, st: &mut Stats) -> CaseResult {
     if terminal {
         st.label(if p.in_check(p.stm) { "terminal_checkmate" } else { "terminal_stalemate" });
     }
-    let d = c08_once(&ptext, &p, &go, plan, follow.as_ref(), st)?;
+    // a third of the cases run with the engine pinned to one core (both threads share a CPU)
+    let pin = fp(&(&ptext, &go)) % 3 == 0;
+    PIN_ONE_CORE.with(|x| x.set(pin));
+    let d = c08_once(&ptext, &p, &go, plan, follow.as_ref(), st);
+    PIN_ONE_CORE.with(|x| x.set(false));
+    let d = d?;
+    if pin && taskset_available() {
+        st.label("engine_pinned_to_one_core");
+    }
     latency_rule(d, plan, false, || c08_once(&ptext, &p, &go, plan, None, &mut Stats::new())).map_err(|m| format!("{} [{} ; {}]", m, ptext, go))?;
     if terminal || plan > 0 {
         st.nontrivial(fp(&(&ptext, &go)));
